@@ -773,6 +773,11 @@ impl<T: Config> UdpProtocol<T> {
             let last_recv_frame = self.last_recv_frame();
             self.recv_inputs
                 .retain(|&k, _| k >= last_recv_frame - 2 * self.max_prediction as i32);
+        } else {
+            // We no longer hold (or never held) the input this packet is encoded against, so it
+            // cannot be decoded. The remote keeps retransmitting from that frame until it learns
+            // what we already have: acknowledge our newest frame so that it can move on.
+            self.send_input_ack();
         }
     }
 
